@@ -124,6 +124,8 @@ def render(e, ind=0, multiline=False):
     if k == "with":
         ms = " ".join("%s (CM %d %s %s)" % (var or "_", cid, lit_text(ev), lit_text(sup)) for var, cid, ev, sup in e[1])
         return "(with [" + ms + "]" + body(e[2]) + ")"
+    if k == "boom":
+        return {"plain": "(BOOM)", "macro-arg": "(wrap (BOOM))", "macro-template": "(mboom)"}[e[1]]
     if k == "lfor":
         return "(lfor " + e[1] + " " + r(e[2]) + (" :if " + r(e[3]) if e[3] is not None else "") + " " + r(e[4]) + ")"
     raise ValueError("unknown form %r" % (k,))
@@ -449,6 +451,8 @@ class Interp:
             raise Return(self.ev(e[1], sc))
         if k == "raise":
             raise Raised(e[1], e[2])
+        if k == "boom":
+            raise Raised("XBOOM", 0)
         if k == "try":
             return self.try_(e, sc)
         if k == "with":
@@ -528,9 +532,9 @@ class Interp:
                 self.assign(var, ev, sc)
             try:
                 v = self.with_(rest, body, sc)
-            except Raised:
+            except Raised as x:
                 self.effect(1000 + cid * 10 + 2)  # __exit__ with exception
-                if sup:
+                if sup and x.cls in ("XA", "XB", "XC"):
                     return None
                 raise
             except (Break, Continue, Return):
@@ -603,6 +607,14 @@ class XC(BaseException):
         self.payload = payload
 
 
+class XBOOM(BaseException):
+    payload = 0
+
+
+def BOOM():
+    raise XBOOM()
+
+
 _EXC = {"XA": XA, "XB": XB, "XC": XC}
 
 
@@ -637,7 +649,7 @@ class Harness:
         return _CM()
 
     def namespace(self):
-        return dict(E=self.E, CM=self.CM, XA=XA, XB=XB, XC=XC)
+        return dict(E=self.E, CM=self.CM, XA=XA, XB=XB, XC=XC, BOOM=BOOM)
 
 
 def wrap_source(prog, mode, multiline=False):
@@ -686,11 +698,11 @@ def run_real(src, fault=None, via="ast", name="vfprog"):
 class Compiled:
     """Compile a program once, run it many times (fresh module namespace per run)."""
 
-    def __init__(self, prog, mode="module", via="ast", name="vfprog"):
+    def __init__(self, prog, mode="module", via="ast", name="vfprog", multiline=False, prelude=""):
         import ast
 
         self.prog, self.mode, self.name = prog, mode, name
-        self.src = wrap_source(prog, mode)
+        self.src = prelude + wrap_source(prog, mode, multiline)
         mod, tree = compile_source(self.src, name)
         self.tree = tree
         self.base = dict(mod.__dict__)
@@ -704,8 +716,9 @@ class Compiled:
         try:
             exec(self.code, ns)
             out["value"] = canon(ns.get("RESULT"))
-        except (XA, XB, XC) as x:
+        except (XA, XB, XC, XBOOM) as x:
             out["exc"] = "%s:%s" % (type(x).__name__, x.payload)
+            out["exception"] = x
         out["log"] = h.log
         out["globals"] = ns
         return out
